@@ -363,6 +363,24 @@ func (t *TSpec) wire(b []byte, o WireOpts, defs map[string]string) []byte {
 	panic("bad spec kind " + t.Kind)
 }
 
+// HasKind reports whether a node of the given kind occurs in the spec.
+func (t *TSpec) HasKind(kind string) bool {
+	if t.Kind == kind {
+		return true
+	}
+	for _, e := range t.Elems {
+		if e.HasKind(kind) {
+			return true
+		}
+	}
+	for _, f := range t.Fields {
+		if f.Type.HasKind(kind) {
+			return true
+		}
+	}
+	return false
+}
+
 // HasUnionWithSeveral reports whether some union has ≥ 2 members (ReverseUnions then changes
 // the bytes), HasRepeatedName whether some name is written as a NameRef.
 func (t *TSpec) HasUnionWithSeveral() bool {
